@@ -80,6 +80,59 @@ def scenarios(draw):
     return sc
 
 
+@st.composite
+def tie_weight_scenarios(draw):
+    """Fractional weights: a gene whose n isoforms share the first exon (the first m also the second one); reads
+    unique to T1, reads ambiguous among T1..Tm (1/m each), unspliced reads ambiguous among all n (1/n each), under a
+    quantification mode that counts ambiguous reads; the same records as one BAM and spread over 2-4 files."""
+    src = S.DrawSrc(draw)
+    n = src.int(5, 9)
+    m = src.int(3, min(7, n - 1))
+    if src.bool(0.5):
+        # weights whose exact sum can lie on a rounding border of the two printed decimals (k/5 + odd/8) while the
+        # addends are not exactly representable
+        n, m = 8, 5
+    base = src.int(800, 2000)
+    strand = src.choice(["+", "-"])
+    e1 = [base, base + src.int(180, 260)]
+    e2 = [e1[1] + src.int(250, 400), e1[1] + src.int(250, 400) + 400]
+    e2[1] = e2[0] + src.int(150, 220)
+    trs = []
+    pos = e2[1] + 300
+    for i in range(n):
+        x = [pos, pos + src.int(120, 200)]
+        pos = x[1] + src.int(200, 350)
+        trs.append({"id": "T%d" % (i + 1), "exons": [list(e1), list(e2), x] if i < m else [list(e1), x]})
+    length = pos + src.int(800, 1500)
+    reads = []
+    k = 0
+
+    def add(chain_, cnt, prefix):
+        nonlocal k
+        for _ in range(cnt):
+            k += 1
+            reads.append(S.exact_read("%s%d" % (prefix, k), "chr1", strand, chain_, polya=0))
+    add(trs[0]["exons"], src.int(1, 3), "u")
+    add([list(e1), [e2[0], e2[1] - src.int(20, 60)]] if strand == "+" else [list(e1), list(e2)], src.int(1, 6), "a")
+    add([[e1[0], e1[1] - src.int(10, 40)]], src.int(1, 4), "m")
+    if src.bool(0.5):
+        add(trs[1]["exons"], src.int(1, 2), "v")
+    reads = src.shuffle(reads)
+    overrides = []
+    for t in trs:
+        overrides += build.splice_overrides("chr1", t["exons"], strand)
+    kf = src.int(2, 4)
+    sc = {"chroms": [["chr1", length, src.int(1, 10 ** 6)]],
+          "genes": [{"id": "G1", "chr": "chr1", "strand": strand, "canon": "canon", "transcripts": trs}],
+          "overrides": overrides, "reads": reads, "nfiles": 1,
+          "gtf": {"gene_records": True, "transcript_records": True},
+          "opts": ["--data_type", src.choice(["nanopore", "pacbio_ccs"]), "--no_gzip", "--threads", "1",
+                   "--no_model_construction", "--transcript_quantification", src.choice(["with_ambiguous", "all"]),
+                   "--gene_quantification", src.choice(["with_ambiguous", "all", "with_inconsistent"])],
+          "variant": {"dim": "bam", "k": kf, "assign": [src.int(0, kf - 1) for _ in reads]}, "tie_weights": [n, m]}
+    return sc
+
+
 def evaluate(case, ctx):
     sc = case
     v = sc["variant"]
@@ -325,4 +378,5 @@ def evaluate_history(case, ctx):
 def stages(tier):
     q = tier == "quick"
     return [Stage("representations", "hyp", evaluate, n=160 if q else 2000, strategy=scenarios),
-            Stage("history", "hyp", evaluate_history, n=64 if q else 1000, strategy=history_scenarios)]
+            Stage("history", "hyp", evaluate_history, n=64 if q else 1000, strategy=history_scenarios),
+            Stage("tie_weights", "hyp", evaluate, n=96 if q else 2000, strategy=tie_weight_scenarios)]
